@@ -23,7 +23,7 @@ META = {
              "statements and the injection site is nested (depth >= 1)"),
     "required": ["monitor:injection"] + [f"kind:{k}" for k in KINDS] + ["variant:case-index-negative", "variant:case-index-too-large",
                                                                          "variant:disagree-through-if-else",
-                                                                         "variant:exit-through-branch",
+                                                                         "variant:exit-through-branch", "variant:foreign-wire-from-root",
                                                                          "feature:site-depth-0",
                                                                          "feature:site-depth-1",
                                                                          "feature:site-depth-2+"],
@@ -188,12 +188,23 @@ def make_interp(kind, site):
         def inj_foreign_wire(self, where, st, b=None, **kw):
             if where != "region":
                 return False
-            port = self._foreign(b, want_block=False)
+            if isinstance(b, Block):
+                return False
+            if sum(map(ord, st["id"])) % 3 == 0:
+                # the root node itself as a source: it has no parent, hence no siblings at all
+                from hugr import OutPort
+
+                port = OutPort(b.hugr.root, 0)
+                COUNT["foreign-wire-from-root"] = COUNT.get("foreign-wire-from-root", 0) + 1
+                where_ = "add_op(wire from the root node)"
+            else:
+                port = self._foreign(b, want_block=False)
+                where_ = "add_op"
             if port is None:
                 self.skipped = "no foreign wire available"
                 return False
             self.injected = True
-            expect(lambda: b.add_op(ops.Noop(), port), NoSiblingAncestor, "add_op")
+            expect(lambda: b.add_op(ops.Noop(), port), NoSiblingAncestor, where_)
 
         def inj_foreign_wire_cfg(self, where, st, b=None, **kw):
             if where != "region":
